@@ -27,6 +27,14 @@ def str_lit(s):
     return _str_lits[s]
 
 
+def lit_text(expr):
+    """text of a string-literal constant, or None for a symbolic string"""
+    for t, c in _str_lits.items():
+        if c.eq(expr):
+            return t
+    return None
+
+
 def str_lit_axioms():
     vals = list(_str_lits.values())
     return [z3.Distinct(*vals)] if len(vals) > 1 else []
@@ -460,6 +468,9 @@ class Executor:
             cands = [fl for n, fl in self.prog.funcs.items() if n.split('::')[-1] == last and not fl[0].args and fl[0].name == n and 'promoted' not in n]
         if not cands:
             last = strip_generics(c).split('::')[-1]
+            from .mirparse import SIMPLE_CONSTS
+            if last in SIMPLE_CONSTS and 'amq_protocol' not in c:
+                return self.eval_const(SIMPLE_CONSTS[last])
             if last in self.prog.ext_consts and 'amq_protocol' in c:
                 ty, val = self.prog.ext_consts[last]
                 w_, s_ = INT_TYPES[ty]
